@@ -69,7 +69,8 @@ class Session:
             if did < 0xff000000:
                 del alive[did]
                 st['dead'].append(did)
-                return wl.Message(self.t, wl.UnresolvedObject(1, 'wl_display'), False, 'delete_id', (wl.Arg.Int(did),))
+                # delete_id is an event: received in a client-side recording, sent in a server-side one
+                return wl.Message(self.t, wl.UnresolvedObject(1, 'wl_display'), rnd.random() < 0.35, 'delete_id', (wl.Arg.Int(did),))
         tid = rnd.choice(list(alive))
         args = []
         for _ in range(rnd.randint(0, 3)):
@@ -356,7 +357,7 @@ def any_arg(rnd):
     elif r < 0.5:
         a = wl.Arg.String(rnd.choice(['', 'a', 'x, y', 'wl_surface@5']))
     elif r < 0.7:
-        o = wl.object.MockObject(id=rnd.randint(0, 7), generation=rnd.choice([0, 1, 2]), type=rnd.choice(_NAMES + [None]))
+        o = wl.object.MockObject(id=rnd.randint(0, 7), generation=rnd.choice([0, 1, 2, 25, 26, 51]), type=rnd.choice(_NAMES + [None]))
         if rnd.random() < 0.3:
             o.generation = None
         a = wl.Arg.Object(o, rnd.random() < 0.4)
@@ -386,7 +387,7 @@ def rich_message(rnd):
     c = None
     if conn is not None:
         c = ConnectionImpl(0.0, conn, None)
-    tgt = wl.object.MockObject(conn=c, id=rnd.randint(1, 7), generation=rnd.choice([0, 1, 2]), type=rnd.choice(_NAMES + [None]))
+    tgt = wl.object.MockObject(conn=c, id=rnd.randint(1, 7), generation=rnd.choice([0, 1, 2, 25, 26, 51]), type=rnd.choice(_NAMES + [None]))
     m = wl.Message(rnd.choice([0.0, 1.5]), tgt, rnd.random() < 0.5, rnd.choice(['commit', 'new', 'destroyed', 'motion', 'delete_id', 'x']),
                    tuple(any_arg(rnd) for _ in range(rnd.randint(0, 4))))
     if rnd.random() < 0.3:
@@ -426,7 +427,7 @@ def pair_case(rnd):
 
 def _mock(rnd):
     from core import wl
-    o = wl.object.MockObject(id=rnd.randint(0, 7), generation=rnd.choice([0, 1, 2]), type=rnd.choice(_NAMES + [None]))
+    o = wl.object.MockObject(id=rnd.randint(0, 7), generation=rnd.choice([0, 1, 2, 25, 26, 51]), type=rnd.choice(_NAMES + [None]))
     if rnd.random() < 0.3:
         o.generation = None
     return o
